@@ -8,6 +8,8 @@ from efootprint.abstract_modeling_classes.modeling_object import ModelingObject
 from efootprint.core.system import System
 from harness import model as M, values as V
 from harness.common import traffic_syms
+from efootprint.abstract_modeling_classes.source_objects import SourceValue
+from efootprint.constants.units import u
 
 PROPERTY = "C16"
 LEVEL = "exploration"
@@ -254,6 +256,39 @@ def h_repoint(ctx, case):
     check_links(ctx, objs, f"after re-pointing {case}")
 
 
+def h_refused_or_undone(ctx, case):
+    """link edits that are refused while being applied (the update puts the previous links back), and dated simulations of
+    link changes (the baseline links come back): forward and reverse links still agree, referenced objects still refuse
+    deletion"""
+    from datetime import timedelta
+    from efootprint.abstract_modeling_classes.modeling_update import ModelingUpdate
+    spec = M.T9(2)
+    objs = M.build(spec, M.Env(ctx, {}))
+    first = min(V.utc_key(ts) for ts in objs["up"].utc_hourly_usage_journey_starts.value.index).to_pydatetime()
+    acts = {
+        "storage_of_another_server": lambda: setattr(objs["srv_alt"], "storage", objs["st"]),
+        "storage_of_another_server_grouped": lambda: ModelingUpdate([[objs["job"].data_transferred, SourceValue(3 * u.MB)],
+                                                                     [objs["srv_alt"].storage, objs["st"]]]),
+        "sim_job_server": lambda: ModelingUpdate([[objs["job"].server, objs["srv_alt"]]], first),
+        "sim_step_jobs": lambda: ModelingUpdate([[objs["step"].jobs, [objs["job"], objs["job_alt"]]]], first + timedelta(hours=1)),
+        "sim_up_network_toggled": lambda: (lambda s_: (s_.set_updated_values(), s_.reset_values()))(
+            ModelingUpdate([[objs["up"].network, objs["net_alt"]]], first)),
+    }
+    try:
+        acts[case]()
+        ctx.count("accepted")
+    except (PermissionError, ValueError):
+        ctx.count("refused")
+    check_links(ctx, objs, f"after {case}")
+    for n in ("st", "srv", "job", "net", "step"):
+        try:
+            objs[n].self_delete()
+            ctx.require(False, f"after {case}: self_delete of {n} (still referenced) is refused", "it was accepted")
+            break
+        except PermissionError:
+            ctx.require(True, f"after {case}: self_delete of {n} (still referenced) is refused")
+
+
 def h_delete(ctx, case):
     spec = M.T9(2)
     objs = M.build(spec, M.Env(ctx, {}))
@@ -302,7 +337,8 @@ def h_two_systems(ctx, case):
     check_links(ctx, objs2, f"system 2 after {case}")
 
 
-HARNESSES = {"list_ops": h_list_ops, "repoint": h_repoint, "delete": h_delete, "two_systems": h_two_systems}
+HARNESSES = {"list_ops": h_list_ops, "repoint": h_repoint, "delete": h_delete, "two_systems": h_two_systems,
+             "refused_or_undone": h_refused_or_undone}
 OPS = ["assign", "assign_dup", "assign_same", "append", "insert", "extend", "extend_empty", "iadd", "imul", "pop", "pop_last",
        "remove", "delitem", "setitem", "setslice", "clear"]
 
@@ -334,4 +370,6 @@ def plan(tier, seed):
         for a, b in pairs[:nb]:
             p.append(("list_ops", dict(attr=attr, ops=[[a, 0], [b, 1]])))
         pairs = pairs[nb:] + pairs[:nb]
+    for case in ("storage_of_another_server", "storage_of_another_server_grouped", "sim_job_server", "sim_step_jobs", "sim_up_network_toggled"):
+        p.append(("refused_or_undone", dict(case=case)))
     return p
